@@ -18,6 +18,7 @@ CONSTANTS Ent,        \* entity slots, filled in the order of Ord
           PClass,     \* classnames / targetnames given to passive (never mutated) entities
           PNames,
           SpawnIn,    \* classnames tried on the worldspawn
+          SpawnNames, \* targetnames given to the worldspawn (it is filed in by_target like any entity)
           SpawnQuiet  \* TRUE: the worldspawn is only touched while no passive entity exists
 
 Maps == {"m1", "m2"}
@@ -69,16 +70,21 @@ SpawnMut == IF SpawnQuiet /\ ~Quiet THEN {} ELSE {"w1"}
 SetClassActs == {[op |-> "set_class", x |-> x, v |-> v] : x \in Mut, v \in ClassIn}
                 \cup {[op |-> "set_class", x |-> x, v |-> v] : x \in SpawnMut, v \in SpawnIn}
 SetNameActs == {[op |-> "set_name", x |-> x, v |-> v, k |-> k] : x \in Mut, v \in NameIn, k \in KeySp}
+               \cup {[op |-> "set_name", x |-> x, v |-> v, k |-> "targetname"] : x \in SpawnMut, v \in SpawnNames}
+SetDefaultActs == {[op |-> "setdefault_name", x |-> x, v |-> v, k |-> "targetname"] :
+                      x \in Mut \cup SpawnMut, v \in SpawnNames}
 UpdateActs == {[op |-> "update", x |-> x, v |-> v, n |-> n, k |-> "targetname"] :
                 x \in Mut, v \in ClassIn \cap {"C", "d"}, n \in NameIn \cap {"", "A"}}
+              \cup {[op |-> "update", x |-> x, v |-> "worldspawn", n |-> n, k |-> "targetname"] : x \in SpawnMut, n \in SpawnNames}
 DelNameActs == {[op |-> "del_name", x |-> x, k |-> k] : x \in Mut, k \in KeySp}
+               \cup {[op |-> "del_name", x |-> x, k |-> "targetname"] : x \in SpawnMut}
 DelClassActs == {[op |-> "del_class", x |-> x] : x \in Mut \cup SpawnMut}
-PopNameActs == {[op |-> "pop_name", x |-> x] : x \in Mut}
+PopNameActs == {[op |-> "pop_name", x |-> x] : x \in Mut \cup SpawnMut}
 PopClassActs == {[op |-> "pop_class", x |-> x] : x \in Mut \cup SpawnMut}
 ClearActs == {[op |-> "clear", x |-> x, c |-> ""] : x \in Mut \cup SpawnMut}
              \cup {[op |-> "clear", x |-> x, c |-> "worldspawn"] : x \in SpawnMut}   \* not refused, class kept
 CopyActs == {[op |-> "copy", x |-> x, p |-> p, m |-> m] : x \in Live \cup SpawnMut, p \in NextFree, m \in CopyMaps}
-MakeUniqueActs == {a \in {[op |-> "make_unique", x |-> x, prefix |-> p] : x \in Mut, p \in Prefixes} :
+MakeUniqueActs == {a \in {[op |-> "make_unique", x |-> x, prefix |-> p] : x \in Mut \cup SpawnMut, p \in Prefixes} :
                       Apply(MCF, st, a).s.ent[a.x].name \in NameU}
 
 Do(a) == LET r == Apply(MCF, st, a) IN st' = r.s /\ act' = a
@@ -91,6 +97,7 @@ RemoveEnt  == \E a \in RemoveEntActs : Do(a)
 EntRemove  == \E a \in EntRemoveActs : Do(a)
 SetClass   == \E a \in SetClassActs : Do(a)
 SetName    == \E a \in SetNameActs : Do(a)
+SetDefault == \E a \in SetDefaultActs : Do(a)
 Update     == \E a \in UpdateActs : Do(a)
 DelName    == \E a \in DelNameActs : Do(a)
 DelClass   == \E a \in DelClassActs : Do(a)
@@ -122,7 +129,7 @@ IterMutate ==
     \/ ("make_unique" \in IterOps /\ \E a \in MakeUniqueActs : IterDo(a))
 
 Next == \/ NewEnt \/ CreateEnt \/ AddEnt \/ AddEnts \/ RemoveEnt \/ EntRemove
-        \/ SetClass \/ SetName \/ Update \/ DelName \/ DelClass \/ PopName \/ PopClass
+        \/ SetClass \/ SetName \/ SetDefault \/ Update \/ DelName \/ DelClass \/ PopName \/ PopClass
         \/ Clear \/ CopyTo \/ MakeUnique \/ IterMutate
 
 Spec == Init /\ [][Next]_vars
@@ -163,7 +170,11 @@ PassiveBound == \A x \in Ent \ Active :
     \/ st.ent[x].home = ""
     \/ (st.ent[x].home = "m1" /\ st.ent[x].cls \in PClass /\ <<st.ent[x].name, st.ent[x].tk>> \in PNameKeys)
     \/ \E y \in Ent : Ord[y] < Ord[x] /\ Keys(st.ent[y]) = Keys(st.ent[x])
-SpawnBound == SpawnQuiet => (Quiet \/ st.ent["w1"].cls = "worldspawn")
+\* ... and a NAMED worldspawn is explored next to the simpler states of the first entity only
+SpawnBound == SpawnQuiet =>
+    /\ (Quiet \/ (st.ent["w1"].cls = "worldspawn" /\ st.ent["w1"].tk = ""))
+    /\ (st.ent["w1"].tk # "" => /\ st.ent["w1"].cls = "worldspawn"
+                                /\ st.ent["e1"].tk # "TargetName" /\ st.ent["e1"].cls \in {"", "c"} /\ st.ent["e1"].name \in {"", "a", "A"})
 
 View == vars
 Pack(e) == <<e.home, e.inmap, e.spawn, e.cls, e.name, e.tk>>
